@@ -248,7 +248,7 @@ fn gather_seqmaps(sections: Vec<SeqmapRawSection<'_>>) -> GatheredSeqmaps {
         }
     }
     for key in maps.keys().cloned().collect::<Vec<_>>() {
-        if key.starts_with(ENUM_SECT_START) && key.ends_with(ENUM_SECT_END) {
+        if key.len() >= ENUM_SECT_START.len() + ENUM_SECT_END.len() && key.starts_with(ENUM_SECT_START) && key.ends_with(ENUM_SECT_END) {
             let map = maps.remove(&key).unwrap();
             let enum_name = sp!(key.span => key[ENUM_SECT_START.len()..key.len()-ENUM_SECT_END.len()].to_string());
             enum_maps.insert(enum_name, map);
